@@ -859,8 +859,14 @@ regp_recv(RegP *p, RPMaybeFrame *mf)
         return early_ebusy(p, &fb);
     case ENOMEM:
         /* Send ERXOVERFLOW reply, based on fallback buffer */
+        /* The frame has not been parsed, so its members cannot be used: the
+         * received octets start right behind the RPFrame structure. */
         byte_buffer_rewind(&fb);
-        byte_buffer_add(&fb, mf->frame->raw.memory, RP_HEADER_SIZE);
+        {
+            const size_t got = cs.buffer.used - sizeof(RPFrame);
+            byte_buffer_add(&fb, cs.buffer.data + sizeof(RPFrame),
+                            (got < RP_HEADER_SIZE) ? got : RP_HEADER_SIZE);
+        }
         return early_erxoverflow(p, &fb);
     default:
         /* Unexpected error. Really shouldn't happen. */
